@@ -25,6 +25,7 @@ import (
 	"fmt"
 	"io"
 	"math"
+	"net"
 	"os"
 	"os/exec"
 	"sort"
@@ -1524,6 +1525,12 @@ func (c *c13Child) kill() {
 
 // returns (number of metrics delivered, error returned, problem). problem != "" means the decoder process died or hung.
 func c13Canary(pkt []byte) (nMetrics int, failed bool, problem string) {
+	return c13CanaryMsg(pkt, 0)
+}
+
+const c13ModeTCP = 0x80000000 // flag in the length word: the message is a chunk script + byte stream for receiveLoop
+
+func c13CanaryMsg(pkt []byte, mode uint32) (nMetrics int, failed bool, problem string) {
 	c13ChildMu.Lock()
 	defer c13ChildMu.Unlock()
 	if c13TheChild == nil {
@@ -1534,7 +1541,7 @@ func c13Canary(pkt []byte) (nMetrics int, failed bool, problem string) {
 		c13TheChild = c
 	}
 	c := c13TheChild
-	hdr := binary.LittleEndian.AppendUint32(nil, uint32(len(pkt)))
+	hdr := binary.LittleEndian.AppendUint32(nil, uint32(len(pkt))|mode)
 	if _, err := c.in.Write(append(hdr, pkt...)); err != nil {
 		c.kill()
 		c13TheChild = nil
@@ -1569,6 +1576,9 @@ func c13Canary(pkt []byte) (nMetrics int, failed bool, problem string) {
 				c.kill()
 				c13TheChild = nil
 				return 0, false, "decoder panicked: " + c.stderr.head()
+			}
+			if a.b[0] == 3 {
+				return 0, false, "receive loop spins: it keeps reading into an empty buffer and never returns (hang)"
 			}
 			return int(binary.LittleEndian.Uint32(a.b[1:5])), a.b[5] != 0, ""
 		case <-time.After(2 * time.Second):
@@ -1642,6 +1652,8 @@ func TestVerifC13Child(t *testing.T) {
 			return // parent is gone
 		}
 		n := binary.LittleEndian.Uint32(hdr[:])
+		tcpMode := n&c13ModeTCP != 0
+		n &^= c13ModeTCP
 		if int(n) > cap(buf) {
 			buf = make([]byte, 0, n)
 		}
@@ -1658,6 +1670,18 @@ func TestVerifC13Child(t *testing.T) {
 					ans[0] = 2
 				}
 			}()
+			if tcpMode {
+				chunks, stream := c13UnpackStream(pkt)
+				conn := &c13Conn{stream: stream, chunks: chunks}
+				err := c13RunLoop(conn, &cnt)
+				if conn.spun {
+					ans[0] = 3
+				}
+				if err != nil {
+					ans[5] = 1
+				}
+				return
+			}
 			err := p.parse(&cnt, nil, pkt, &batch, &scratch, "")
 			if err != nil {
 				ans[5] = 1
@@ -1827,6 +1851,425 @@ func TestVerifC13Robust(t *testing.T) {
 		c := c13GenPkt().Draw(rt, "case")
 		vpRunCase(rt, "C13", "robust", c, func() {
 			nt, cls := c13PropRobust(rt, c, true)
+			ev.Case(nt, c, cls...)
+		})
+	})
+}
+
+// ---------------------------------------------------------------- sub-check tcpstream: the real (*TCP).receiveLoop
+
+const c13TCPBuf = 4 + 65535 // receive buffer of receiveLoop: one header + the largest frame body
+
+// c13Conn is a scripted net.Conn: it hands the stream to the reader in the generated write sizes (never more than the
+// reader asks for). A reader that keeps asking for zero bytes is spinning; the script breaks the spin and records it.
+type c13Conn struct {
+	stream    []byte
+	pos       int
+	chunks    []int
+	ci, left  int
+	zeroReads int
+	spun      bool
+	minRoom   int
+	reads     int
+}
+
+var errC13Spin = fmt.Errorf("c13: reader spins on zero-length reads")
+
+func (c *c13Conn) Read(p []byte) (int, error) {
+	c.reads++
+	if len(p) == 0 {
+		c.zeroReads++
+		if c.zeroReads > 100 {
+			c.spun = true
+			return 0, errC13Spin
+		}
+		return 0, nil
+	}
+	c.zeroReads = 0
+	if c.reads == 1 || len(p) < c.minRoom {
+		c.minRoom = len(p)
+	}
+	if c.pos >= len(c.stream) {
+		return 0, io.EOF
+	}
+	if c.left <= 0 {
+		if c.ci < len(c.chunks) {
+			c.left = c.chunks[c.ci]
+			c.ci++
+			if c.left < 1 {
+				c.left = 1
+			}
+		} else {
+			c.left = len(c.stream) - c.pos
+		}
+	}
+	n := len(p)
+	if n > c.left {
+		n = c.left
+	}
+	if n > len(c.stream)-c.pos {
+		n = len(c.stream) - c.pos
+	}
+	copy(p, c.stream[c.pos:c.pos+n])
+	c.pos += n
+	c.left -= n
+	return n, nil
+}
+func (c *c13Conn) Write(p []byte) (int, error)        { return len(p), nil }
+func (c *c13Conn) Close() error                       { return nil }
+func (c *c13Conn) LocalAddr() net.Addr                { return &net.TCPAddr{} }
+func (c *c13Conn) RemoteAddr() net.Addr               { return &net.TCPAddr{} }
+func (c *c13Conn) SetDeadline(t time.Time) error      { return nil }
+func (c *c13Conn) SetReadDeadline(t time.Time) error  { return nil }
+func (c *c13Conn) SetWriteDeadline(t time.Time) error { return nil }
+
+func c13RunLoop(conn *c13Conn, h Handler) error {
+	s := newStreamReceiver(nil, nil, "tcp", true)
+	return s.receiveLoop(nil, h, &serverConn{conn: conn}, "")
+}
+
+func c13PackStream(chunks []int, stream []byte) []byte {
+	w := binary.LittleEndian.AppendUint32(nil, uint32(len(chunks)))
+	for _, c := range chunks {
+		w = binary.LittleEndian.AppendUint32(w, uint32(c))
+	}
+	return append(w, stream...)
+}
+
+func c13UnpackStream(b []byte) (chunks []int, stream []byte) {
+	if len(b) < 4 {
+		return nil, nil
+	}
+	n := int(binary.LittleEndian.Uint32(b))
+	b = b[4:]
+	for i := 0; i < n && len(b) >= 4; i++ {
+		chunks = append(chunks, int(binary.LittleEndian.Uint32(b)))
+		b = b[4:]
+	}
+	return chunks, b
+}
+
+type c13Frame struct {
+	Kind  string    `json:"kind"`            // batch | jsonpad | legacy | garbage | empty | oversize
+	Fmt   int       `json:"fmt,omitempty"`   // batch: wire format
+	Batch *c13Batch `json:"batch,omitempty"` // batch, jsonpad
+	Len   int       `json:"len,omitempty"`   // jsonpad, legacy, garbage: body length; oversize: announced length - 65536
+}
+
+type c13Stream struct {
+	Frames []c13Frame `json:"frames"`
+	Chunks []int      `json:"chunks"`        // write sizes; the rest of the stream goes out in one last write
+	Cut    int        `json:"cut,omitempty"` // the connection ends this many bytes before the end of the last frame
+}
+
+func (f *c13Frame) body() []byte {
+	switch f.Kind {
+	case "batch":
+		if f.Batch == nil {
+			return nil
+		}
+		fm := f.Fmt
+		if fm == c13FmtJSON && !c13JSONCapable(f.Batch.Metrics) {
+			fm = c13FmtTL
+		}
+		return c13Encode(f.Batch, fm)
+	case "jsonpad": // a JSON batch followed by white space up to the wanted length
+		b := c13Batch{}
+		if f.Batch != nil && c13JSONCapable(f.Batch.Metrics) {
+			b = *f.Batch
+		}
+		b.Enc.JS = 0
+		p := c13EncJSON(&b)
+		for len(p) < f.Len {
+			p = append(p, ' ')
+		}
+		return p
+	case "legacy":
+		p := []byte("SH")
+		for len(p) < f.Len {
+			p = append(p, 'x')
+		}
+		return p
+	case "garbage":
+		r := &c13Rng{s: uint64(f.Len)*31 + 7}
+		p := make([]byte, f.Len)
+		for i := range p {
+			p[i] = byte(r.next())
+		}
+		if len(p) > 0 {
+			p[0] = 0xff // neither of the documented prefixes: handled (and rejected) by the protobuf decoder
+		}
+		return p
+	}
+	return nil
+}
+
+// the byte stream, the end offset of every frame in it, and the offset of the first oversize header (-1: none)
+func (c *c13Stream) build() (stream []byte, ends []int, starts []int, bodies [][]byte, oversizeAt int) {
+	oversizeAt = -1
+	for i := range c.Frames {
+		f := &c.Frames[i]
+		starts = append(starts, len(stream))
+		if f.Kind == "oversize" {
+			if oversizeAt < 0 {
+				oversizeAt = len(stream)
+			}
+			l := uint32(65536 + f.Len)
+			if f.Len < 0 || f.Len > 1<<20 {
+				l = math.MaxUint32
+			}
+			stream = binary.LittleEndian.AppendUint32(stream, l)
+			ends = append(ends, len(stream))
+			bodies = append(bodies, nil)
+			continue
+		}
+		b := f.body()
+		if len(b) > 65535 {
+			b = b[:65535]
+		}
+		stream = binary.LittleEndian.AppendUint32(stream, uint32(len(b)))
+		stream = append(stream, b...)
+		ends = append(ends, len(stream))
+		bodies = append(bodies, b)
+	}
+	if c.Cut > 0 {
+		cut := c.Cut
+		if cut > len(stream) {
+			cut = len(stream)
+		}
+		stream = stream[:len(stream)-cut]
+	}
+	return
+}
+
+func c13PropTCP(t vpT, c c13Stream, canary bool) (nontrivial bool, classes []string) {
+	stream, ends, starts, bodies, oversizeAt := c.build()
+	// what the frames mean: every complete frame before a framing error, decoded on its own by the (separately
+	// checked) parse path
+	var want []c13Norm
+	wantErr := false
+	complete := 0
+	for i := range c.Frames {
+		if c.Frames[i].Kind == "oversize" {
+			if starts[i]+4 <= len(stream) {
+				wantErr = true // the length word is readable: framing error ends the connection
+			}
+			break
+		}
+		if ends[i] > len(stream) {
+			break // cut off by the end of the connection
+		}
+		rec, _ := (&c13Dec{}).run(bodies[i])
+		want = append(want, rec.metrics...)
+		complete++
+	}
+	_ = oversizeAt
+	alt := []int{c13TCPBuf} // metamorphic twin: the same stream read in buffer-sized gulps
+	if len(c.Chunks) == 1 && c.Chunks[0] == c13TCPBuf {
+		alt = []int{4096}
+	}
+	for pass, chunks := range [][]int{c.Chunks, alt} {
+		what := fmt.Sprintf("tcp stream of %d bytes, %d frames (%d complete), chunking %d", len(stream), len(c.Frames), complete, pass)
+		if canary && pass == 0 {
+			n, failed, problem := c13CanaryMsg(c13PackStream(chunks, stream), c13ModeTCP)
+			if problem != "" {
+				t.Fatalf("%s: %s", what, problem)
+			}
+			if n != len(want) || failed != wantErr {
+				t.Fatalf("%s: canary delivered %d metrics (error=%v), want %d (error=%v)", what, n, failed, len(want), wantErr)
+			}
+		}
+		conn := &c13Conn{stream: stream, chunks: chunks}
+		rec := &c13Rec{}
+		err := c13RunLoop(conn, rec)
+		if conn.spun {
+			t.Fatalf("%s: receive loop spins: it keeps reading into an empty buffer (buffer full, nothing consumed) and never returns", what)
+		}
+		if (err != nil) != wantErr {
+			t.Fatalf("%s: receiveLoop returned %v, framing error expected: %v", what, err, wantErr)
+		}
+		if rec.maskBad != "" {
+			t.Fatalf("%s: inconsistent decode (%s)", what, rec.maskBad)
+		}
+		if !wantErr && conn.pos != len(stream) {
+			t.Fatalf("%s: loop ended after %d of %d stream bytes", what, conn.pos, len(stream))
+		}
+		if len(rec.metrics) != len(want) {
+			t.Fatalf("%s: %d metrics delivered, want %d (the frames decoded one by one)", what, len(rec.metrics), len(want))
+		}
+		for i := range want {
+			if !c13NormEq(rec.metrics[i], want[i]) {
+				t.Fatalf("%s: metric %d differs\ngot  %v\nwant %v", what, i, rec.metrics[i], want[i])
+			}
+		}
+		if pass == 0 && conn.minRoom <= 3 {
+			classes = append(classes, "read-with-buffer-almost-full")
+		}
+	}
+	// classes
+	for _, e := range ends {
+		if e >= c13TCPBuf-3 && e <= c13TCPBuf+3 && e <= len(stream) {
+			classes = append(classes, "frame-boundary-within-3-of-buffer-end")
+			break
+		}
+	}
+	pos, straddle, aligned := 0, false, 0
+	isStart := map[int]bool{}
+	for _, s := range starts {
+		isStart[s] = true
+	}
+	for _, ch := range c.Chunks {
+		if ch < 1 {
+			ch = 1
+		}
+		pos += ch
+		if pos >= len(stream) {
+			break
+		}
+		if isStart[pos] {
+			aligned++
+		}
+		for d := 1; d <= 3; d++ {
+			if isStart[pos-d] {
+				straddle = true
+			}
+		}
+	}
+	if straddle {
+		classes = append(classes, "header-straddles-reads")
+	}
+	if aligned > 0 {
+		classes = append(classes, "write-ends-on-frame-boundary")
+	}
+	if wantErr {
+		classes = append(classes, "framing-error")
+	}
+	if c.Cut > 0 {
+		classes = append(classes, "connection-cut-mid-frame")
+	}
+	if len(stream) > c13TCPBuf {
+		classes = append(classes, "stream-longer-than-buffer")
+	}
+	if len(want) > 0 {
+		classes = append(classes, "stream-yields-metrics")
+	}
+	return len(c.Frames) >= 2 && len(want) > 0, classes
+}
+
+func c13GenStream() *rapid.Generator[c13Stream] {
+	small := c13GenBatch(2, false)
+	return rapid.Custom(func(t *rapid.T) c13Stream {
+		var c c13Stream
+		frame := func(label string) c13Frame {
+			switch rapid.SampledFrom([]string{"batch", "batch", "batch", "empty", "garbage", "legacy", "batch"}).Draw(t, label) {
+			case "empty":
+				return c13Frame{Kind: "empty"}
+			case "garbage":
+				return c13Frame{Kind: "garbage", Len: rapid.IntRange(1, 40).Draw(t, "glen")}
+			case "legacy":
+				return c13Frame{Kind: "legacy", Len: rapid.IntRange(2, 40).Draw(t, "llen")}
+			}
+			b := small.Draw(t, "batch")
+			b.Enc.Split, b.Enc.Order = nil, nil
+			return c13Frame{Kind: "batch", Fmt: rapid.IntRange(0, 3).Draw(t, "fmt"), Batch: &b}
+		}
+		shape := rapid.SampledFrom([]string{"edge", "edge", "small", "edge", "big", "edge"}).Draw(t, "shape")
+		for i := rapid.IntRange(1, 6).Draw(t, "nhead"); i > 0; i-- {
+			c.Frames = append(c.Frames, frame("head"))
+		}
+		filler := func(bodyLen int) {
+			if bodyLen < 2 {
+				bodyLen = 2
+			}
+			kind := rapid.SampledFrom([]string{"legacy", "jsonpad", "garbage"}).Draw(t, "filler")
+			f := c13Frame{Kind: kind, Len: bodyLen}
+			if kind == "jsonpad" {
+				b := small.Draw(t, "padbatch")
+				b.Enc.Split, b.Enc.Order = nil, nil
+				f.Batch = &b
+			}
+			c.Frames = append(c.Frames, f)
+		}
+		switch shape {
+		case "edge": // a frame boundary at buffer size -3..+3 (or at a multiple of it)
+			_, ends, _, _, _ := c.build()
+			at := ends[len(ends)-1]
+			target := c13TCPBuf*rapid.SampledFrom([]int{1, 1, 1, 2}).Draw(t, "mult") + rapid.IntRange(-3, 3).Draw(t, "delta")
+			for target-at-4 > 65535 {
+				l := rapid.IntRange(20000, 60000).Draw(t, "prefill")
+				filler(l)
+				at += 4 + l
+			}
+			if target-at-4 >= 2 {
+				filler(target - at - 4)
+			}
+		case "big":
+			for i := rapid.IntRange(1, 3).Draw(t, "nbig"); i > 0; i-- {
+				filler(rapid.SampledFrom([]int{65535, 65534, 65531, 65500, 40000, 32768, 65535}).Draw(t, "biglen"))
+			}
+		}
+		for i := rapid.IntRange(1, 5).Draw(t, "ntail"); i > 0; i-- {
+			c.Frames = append(c.Frames, frame("tail"))
+		}
+		if rapid.IntRange(0, 11).Draw(t, "oversize") == 5 {
+			c.Frames = append(c.Frames, c13Frame{Kind: "oversize", Len: rapid.SampledFrom([]int{0, 1, 1000, -1}).Draw(t, "olen")})
+			c.Frames = append(c.Frames, frame("after"))
+		}
+		if rapid.IntRange(0, 7).Draw(t, "docut") == 3 {
+			c.Cut = rapid.IntRange(1, 9).Draw(t, "cut")
+		}
+		stream, _, starts, _, _ := c.build()
+		switch rapid.SampledFrom([]string{"all", "frames", "straddle", "random", "big", "ones", "straddle", "frames"}).Draw(t, "chunking") {
+		case "all":
+			c.Chunks = []int{len(stream) + 1}
+		case "big":
+			c.Chunks = []int{rapid.SampledFrom([]int{c13TCPBuf, c13TCPBuf - 1, c13TCPBuf + 1, 65536, 32768, 100000}).Draw(t, "bigsz")}
+			for n := c.Chunks[0]; n < len(stream); n += c.Chunks[0] {
+				c.Chunks = append(c.Chunks, c.Chunks[0])
+			}
+		case "ones":
+			if len(stream) <= 3000 {
+				for i := 0; i < len(stream); i++ {
+					c.Chunks = append(c.Chunks, 1)
+				}
+			} else { // one byte at a time around the buffer end, gulps elsewhere
+				c.Chunks = append(c.Chunks, c13TCPBuf-40)
+				for i := 0; i < 90; i++ {
+					c.Chunks = append(c.Chunks, 1)
+				}
+			}
+		case "frames", "straddle": // every write ends on a frame boundary, or 1..3 bytes into the next header
+			pos := 0
+			for _, s := range starts[1:] {
+				cutAt := s
+				if rapid.IntRange(0, 3).Draw(t, "skip") == 0 {
+					continue
+				}
+				if rapid.Bool().Draw(t, "into-header") {
+					cutAt = s + rapid.IntRange(1, 3).Draw(t, "hdrbytes")
+				}
+				if cutAt > pos && cutAt < len(stream) {
+					c.Chunks = append(c.Chunks, cutAt-pos)
+					pos = cutAt
+				}
+			}
+		default:
+			for pos := 0; pos < len(stream); {
+				n := rapid.SampledFrom([]int{1, 2, 3, 4, 5, 7, 100, 1000, 4096, 20000, 65535, 65539}).Draw(t, "sz")
+				c.Chunks = append(c.Chunks, n)
+				pos += n
+			}
+		}
+		return c
+	})
+}
+
+func TestVerifC13Tcpstream(t *testing.T) {
+	ev := vpNewEv(t, "C13", "tcpstream")
+	rapid.Check(t, func(rt *rapid.T) {
+		c := c13GenStream().Draw(rt, "case")
+		vpRunCase(rt, "C13", "tcpstream", c, func() {
+			nt, cls := c13PropTCP(rt, c, true)
 			ev.Case(nt, c, cls...)
 		})
 	})
@@ -2020,6 +2463,13 @@ func init() {
 			t.Fatalf("decode: %v", err)
 		}
 		c13PropXformat(t, c)
+	}
+	vpReplayers["C13/tcpstream"] = func(t vpT, raw json.RawMessage) {
+		var c c13Stream
+		if err := json.Unmarshal(raw, &c); err != nil {
+			t.Fatalf("decode: %v", err)
+		}
+		c13PropTCP(t, c, true)
 	}
 	vpReplayers["C13/robust"] = func(t vpT, raw json.RawMessage) {
 		var c c13Pkt
